@@ -124,6 +124,16 @@ def gen_history(rng, hid, confirm=False):
         # from this step on EVERY append of the history goes through ONE long-lived ParquetFile handle (pf.write_row_groups), which is
         # also read after each of them: state the handle keeps about the dataset has to follow what it wrote itself
         h["handle_from"] = rng.randrange(1, nb)
+        for b in h["batches"][h["handle_from"]:]:
+            # a FAILED operation through the handle first (its data source raises after `after` row groups / its k-th file call
+            # fails), then the append proper: nothing of the failed one may show up, now or after later appends
+            r = rng.random()
+            if r < 0.25:
+                b["failed_first"] = {"mode": "source", "after": rng.choice([0, 1, 1, 2])}
+            elif r < 0.4 and (b["n"] > 0 or scheme == "simple"):
+                # (with rows to write the first three file calls of a multi-file append belong to its first part file; an append of
+                # no rows goes straight to the summary files, whose rewrite is outside the property)
+                b["failed_first"] = {"mode": "io", "k": rng.choice([1, 2, 3])}
     if scheme == "simple" and not confirm and rng.random() < FAULT_SHARE:
         # I/O fault injection at EVERY call (open, read of the old footer, every write incl. the new footer, close) of one append
         h["fault_step"] = rng.randrange(1, nb)
@@ -281,6 +291,40 @@ def old_chunk_ranges(pf):
             if md.dictionary_page_offset is not None and md.dictionary_page_offset > 0:
                 start = min(start, md.dictionary_page_offset)
             out.append((start, start + md.total_compressed_size))
+    return out
+
+
+def failed_operation(handle, ff, df, akw, root, target, expected, with_index):
+    """an operation through the long-lived handle that FAILS (data source raising after some row groups / k-th file call failing);
+    afterwards a fresh open must read the previous content"""
+    from fastparquet import ParquetFile
+    out = {"mode": ff["mode"], "raised": None}
+    rec = dsfs.Recorder(root, fail_at=ff.get("k"), variant="pre")
+
+    def source():
+        n = len(df)
+        cut = max(1, n // 2)
+        for j, part in enumerate([df.iloc[:cut], df.iloc[cut:], df]):
+            if j >= ff["after"]:
+                raise OSError("the data source of this append failed after %d row groups" % j)
+            yield part
+    with rec:
+        try:
+            if ff["mode"] == "source":
+                handle.write_row_groups(source(), compression=akw["compression"], open_with=rec.open_with, mkdirs=rec.mkdirs)
+            else:
+                handle.write_row_groups(df, row_group_offsets=akw.get("row_group_offsets"), compression=akw["compression"],
+                                        open_with=rec.open_with, mkdirs=rec.mkdirs)
+        except BaseException as e:      # noqa
+            out["raised"] = "%s: %s" % (type(e).__name__, str(e)[:100])
+    if out["raised"] is None:
+        out["problem"] = ["failing-operation-returned-normally", "an append whose %s fails returned normally" % (
+            "data source" if ff["mode"] == "source" else "file call number %s" % ff.get("k"))]
+        return out
+    s_, val = dsfs.guarded(lambda: frame_cells(ParquetFile(target).to_pandas(), with_index), READ_TIMEOUT)
+    if s_ != "ok" or val != expected:
+        out["problem"] = ["failed-append-through-handle-changed-content",
+                          "after an append through the handle failed (%s) a fresh open %s" % (out["raised"], "reads other content" if s_ == "ok" else "fails: %s" % (val,))]
     return out
 
 
@@ -462,6 +506,7 @@ def run_history(arg):
         root = base if simple else target
         expected = None
         handle = None                   # the long-lived ParquetFile of a history with "handle_from"
+        had_failed = False              # a failed operation may have left unreferenced part files behind
         foreign = h.get("foreign")
         for i in range(len(h["batches"])):
             if foreign and i == 0:
@@ -524,6 +569,12 @@ def run_history(arg):
                         if use_handle:
                             if handle is None:
                                 handle = ParquetFile(target)      # opened once; every later append and read-in-between uses it
+                            ff = h["batches"][i].get("failed_first")
+                            if ff:
+                                had_failed = True
+                                st["failed_first"] = failed_operation(handle, ff, df, akw, root, target, expected, bool(h["index"]))
+                                if st["failed_first"].get("problem"):
+                                    st["problems"].append(tuple(st["failed_first"]["problem"]))
                             handle.write_row_groups(df, row_group_offsets=akw.get("row_group_offsets"), compression=akw["compression"],
                                                     open_with=rec.open_with, mkdirs=rec.mkdirs)
                         elif h["batches"][i].get("via") == "write_row_groups":
@@ -566,7 +617,8 @@ def run_history(arg):
                         st["problems"] += st["faults"]["problems"][:3]
                 else:
                     snap_a = dsfs.snapshot(target)
-                    old_files = [p for p in snap_b if p not in (dsfs.MD, dsfs.CMD)]
+                    # (the data files OF THE DATASET: what the summary references; a part file left behind by a failed operation is not)
+                    old_files = [p for p in snap_b if p not in (dsfs.MD, dsfs.CMD) and (p in refs_b or not had_failed)]
                     changed = [p for p in old_files if snap_a.get(p) != snap_b[p]]
                     if changed:
                         st["problems"].append(("existing-data-file-changed", "pre-existing data file(s) %s %s" % (
@@ -578,6 +630,7 @@ def run_history(arg):
                     if moved:
                         st["problems"].append(("renamed-or-removed-existing-data-file", "%s" % moved[:3]))
                     st["new_files"] = sorted(set(snap_a) - set(snap_b))
+                    st["had_failed"] = had_failed
                     st["nfiles_before"] = len(snap_b)
                 a_map = dict((c, v) for c, v in a_cells)        # by column NAME: the appended frame may order its columns differently
                 if sorted(a_map) != sorted(c for c, _ in expected):
@@ -698,6 +751,7 @@ def run(ctx):
     ctx.coq_file(os.path.join(C.COQ, "props", "C07.v"))
     bad = C.hygiene()
     ctx.obligation("hygiene: no Admitted/Axiom/Parameter/... in coq/", not bad, "; ".join(bad))
+    dsfs.paths_translator(ctx)
     chk = dsfs.coqchk_start(C.COQ, "C07") if not ctx.quick() else None
     C.use_shadow()
     C.pqref()
@@ -755,6 +809,8 @@ def run(ctx):
             short = {"history": h["id"], "scheme": h["scheme"], "step": i}
             if "raised" in st:
                 ctx.count("refused", st["raised"][:60])
+            if st.get("failed_first"):
+                ctx.count("failed_operation_before_append_on_reused_handle", "%s/%s" % (st["failed_first"]["mode"], h["scheme"]))
             if st.get("faults"):
                 ctx.count("fault_injected_appends", 1)
                 for key_, dd in (("fault_kind", st["faults"]["kinds"]), ("fault_outcome", st["faults"]["outcomes"])):
@@ -798,7 +854,7 @@ def run(ctx):
                 cmds.append(("append_trace", [p.encode() for p in st["refs_before"]], 1 if pt else 0, rgs, mdc, cmdc))
                 meta.append(("model", short, norm))
                 # fresh names: every new file is referenced, every new reference is a new file
-                if "refs_after" in st:
+                if "refs_after" in st and not st.get("had_failed"):      # (a failed operation leaves unreferenced part files, which later appends may replace)
                     newrefs = st["refs_after"][len(st["refs_before"]):]
                     ctx.correspondence("new references = new files (fresh names)", short, sorted(set(newrefs)),
                                        sorted(p for p in st["new_files"] if p not in (dsfs.MD, dsfs.CMD)))
